@@ -33,15 +33,15 @@ type regOp struct {
 	PID       string   `json:"pipeline,omitempty"`
 	NodeIDs   []string `json:"nodes,omitempty"`
 	NodeKind  int      `json:"kind,omitempty"`
-	Policy    string   `json:"policy,omitempty"` // "", allow, deny, invalid
+	Policy    string   `json:"policy,omitempty"`   // "", allow, deny, invalid
 	CtxDone   bool     `json:"ctx_done,omitempty"` // removals: the caller's context is already cancelled
-	Policy2   string   `json:"policy2,omitempty"` // a second policy option in the same call (one of the two is invalid, or both are equal)
+	Policy2   string   `json:"policy2,omitempty"`  // a second policy option in the same call (one of the two is invalid, or both are equal)
 	Thr       int      `json:"thr,omitempty"`
 	CloseErr  bool     `json:"close_fails,omitempty"`
 	ReopenErr bool     `json:"reopen_fails,omitempty"`
-	FailNode  string   `json:"fail_node,omitempty"` // reopen: label of the node object told to fail
-	Wrap      int      `json:"wrapped,omitempty"`   // regnode: levels of NodeUnwrapper wrapping
-	SameObj   bool     `json:"same_instance,omitempty"` // regnode: re-register the very node instance that is registered now
+	FailNode  string   `json:"fail_node,omitempty"`      // reopen: label of the node object told to fail
+	Wrap      int      `json:"wrapped,omitempty"`        // regnode: levels of NodeUnwrapper wrapping
+	SameObj   bool     `json:"same_instance,omitempty"`  // regnode: re-register the very node instance that is registered now
 	Foreign   string   `json:"foreign_option,omitempty"` // an option of the OTHER kind (node option on a pipeline call, or vice versa): must be ignored
 }
 
@@ -154,7 +154,7 @@ type regWorld struct {
 	quiet   bool
 	types   []string
 	ids     []string
-	regd    map[string]el.Node // what was passed to the last successful RegisterNode per id
+	regd    map[string]el.Node     // what was passed to the last successful RegisterNode per id
 	wrapOf  map[*recNode]*wrapNode // the outermost wrapper a node object was registered behind
 }
 
@@ -350,6 +350,12 @@ func (w *regWorld) apply(op regOp) (ms []mismatch, failed bool) {
 		failed = err != nil
 		if err == nil {
 			w.model.thr[op.Typ] = op.Thr
+			w.model.typeSeen[op.Typ] = true
+		}
+	case "setthrsinks":
+		err := w.broker.SetSuccessThresholdSinks(el.EventType(op.Typ), op.Thr)
+		failed = err != nil
+		if err == nil {
 			w.model.typeSeen[op.Typ] = true
 		}
 	case "reopen":
@@ -687,9 +693,9 @@ func runRegistrySeqOps(rc *RunCtx, prop string, fixed []regOp) {
 		id := ids[tp.Choose(len(ids), "id")]
 		weights := map[string][]int{ // regnode regpipe rmpipe rmpan rmnode send reopen setthr
 			"C05": {4, 8, 1, 2, 3, 1, 0, 1},
-			"C06": {4, 6, 3, 4, 5, 1, 0, 0},
-			"C07": {6, 7, 2, 1, 2, 3, 2, 0},
-			"C20": {3, 6, 2, 1, 1, 0, 5, 0},
+			"C06": {4, 6, 3, 4, 5, 1, 0, 1},
+			"C07": {6, 7, 2, 1, 2, 3, 2, 1},
+			"C20": {3, 6, 2, 1, 1, 0, 5, 2},
 		}[prop]
 		tot := 0
 		for _, x := range weights {
@@ -793,7 +799,8 @@ func runRegistrySeqOps(rc *RunCtx, prop string, fixed []regOp) {
 			o.Thr = []int{0, 0, 1, 2}[tp.Choose(4, "reopen-ctx")]
 			return o
 		default:
-			return regOp{Kind: "setthr", Typ: typ, Thr: tp.Choose(4, "thr") - 1}
+			// (a threshold call may be the first thing the Broker hears about an event type)
+			return regOp{Kind: []string{"setthr", "setthrsinks"}[tp.Choose(2, "which-threshold")], Typ: typ, Thr: tp.Choose(4, "thr") - 1}
 		}
 	}
 
